@@ -19,9 +19,12 @@ RULE = ("stopping games (random, dead-successor patterns, slow cycles), reward-t
 
 
 def judge(ctx, g, prune, o, stopping):
+    inp = {"game": gen.desc(g), "prune": prune}
+    if o["outcome"] not in ("ok", "ValueError:nosolution", "Timeout"):
+        ctx.violation("no-result", inp, {"outcome": o["outcome"], "msg": o.get("msg")})
+        return True
     if o["outcome"] != "ok":
         return False
-    inp = {"game": gen.desc(g), "prune": prune}
     S = Solved(g, prune, o)
     nontriv = False
     # inclusion: without exception
